@@ -105,12 +105,63 @@ def nesting(r):
         out.append(("long-assign-%d" % n, "int main() { int a = 1; a" + " = a" * n + "; return 0; }\n"))
         out.append(("deep-lambda-%d" % n, prog("int func(int q) { return " * min(n, 250) + "1" + "; }" * min(n, 250))))
         out.append(("deep-macro-%d" % n, "".join("#define M%d M%d\n" % (i, i + 1) for i in range(min(n, 400))) + "#define M%d 1\nint main() { return M0; }\n" % min(n, 400)))
+    box = "struct Box<T> { T v; };\n"
+    for n in (50, 300, 800, 1300, 2000):
+        ty = "Box<" * n + "int" + ">" * n
+        out.append(("deep-generic-def-%d" % n, box + "int main() { " + ty + " b; return 0; }\n"))
+        out.append(("deep-generic-param-%d" % n, box + "int f(" + ty + " b) { return 0; }\nint main() { return 0; }\n"))
+        out.append(("deep-generic-ret-%d" % n, box + ty + " f() { }\nint main() { return 0; }\n"))
+        out.append(("deep-generic-member-%d" % n, box + "struct H { " + ty + " m; };\nint main() { return 0; }\n"))
+        out.append(("deep-generic-unclosed-%d" % n, box + "int main() { " + "Box<" * n + "int b; return 0; }\n"))
+        out.append(("deep-pointer-type-%d" % n, "int main() { int" + "*" * n + " p; return 0; }\n"))
+        out.append(("deep-array-dims-%d" % n, "int main() { int" + "[1]" * n + " v; return 0; }\n"))
+        out.append(("deep-const-%d" % n, "int main() { " + "const " * n + "int c = 1; return 0; }\n"))
+        out.append(("deep-fnptr-type-%d" % n, "int main() { " + "int(*" * min(n, 900) + "p" + ")(int)" * min(n, 900) + "; return 0; }\n"))
+        out.append(("deep-macro-call-%d" % n, "#define F(x) (x + 1)\nint main() { int q = " + "F(" * n + "1" + ")" * n + "; return 0; }\n"))
+        out.append(("wide-self-macro-%d" % n, "#define A" + " A" * n + "\nint main() { int A = 1; return 0; }\n" + "A " * n + "\n"))
+        out.append(("wide-macro-body-%d" % n, "#define B" + " 1 +" * n + " 1\nint main() { int q = B; return 0; }\n" + "B; " * min(n, 300) + "\n"))
+    for d in (4, 8, 12, 16, 20, 24):
+        out.append(("double-macro-%d" % d, "".join("#define D%d D%d D%d\n" % (i, i + 1, i + 1) for i in range(d)) + "#define D%d 1\nint main() { return 0; }\nD0\n" % d))
     # regression inputs of repaired defects (and close variants)
     out.append(("regress-empty-type-params-0", "typedef MyInt = int;\nMyInt<int> f<>(int x) { return x; }\nint main() { return 0; }\n"))
     out.append(("regress-empty-type-params-1", "int f<>(int x) { return x; }\nint main() { return f<>(1); }\n"))
     out.append(("regress-empty-type-params-2", "struct Box<> { int v; };\nint main() { Box<> b; return 0; }\n"))
     out.append(("regress-empty-type-params-3", "Box<int> g<>() { }\n"))
     return [(k, p) for k, p in out if len(p.encode("utf-8")) <= 8192]
+
+
+def preproc_case(r):
+    """a random sequence of preprocessor directives and code lines; conditionals are NOT kept balanced on purpose (unclosed
+    #ifdef at end of input, #else / #endif without an opener, duplicate #else, directives with missing operands ...)"""
+    names = ["X", "Y", "DEBUG", "N", "F"]
+    lines = []
+    for _ in range(r.range(1, 14)):
+        k = r.below(100)
+        nm = r.choice(names)
+        if k < 14:
+            lines.append("#define %s %s" % (nm, r.choice(["1", "42", "", "(1 + 2)", "Y", nm, "\"s\""])))
+        elif k < 20:
+            lines.append("#define %s(a, b) %s" % (nm, r.choice(["((a) + (b))", "a", "", "%s(a, b)" % nm, "a b"])))
+        elif k < 26:
+            lines.append("#undef %s" % r.choice([nm, ""]))
+        elif k < 40:
+            lines.append("#ifdef %s" % r.choice([nm, nm, ""]))
+        elif k < 52:
+            lines.append("#ifndef %s" % r.choice([nm, nm, ""]))
+        elif k < 62:
+            lines.append("#else")
+        elif k < 76:
+            lines.append("#endif")
+        elif k < 80:
+            lines.append(r.choice(["#", "#if 1", "#elif X", "#include \"x\"", "#pragma once", "# define X 1", "#error stop", "#defineX", "#ifdef"]))
+        elif k < 90:
+            lines.append("int v%d = %s;" % (len(lines), r.choice([nm, "%s(1, 2)" % nm, "1", "%s(" % nm, "%s(1" % nm])))
+        else:
+            lines.append(r.choice(["int main() { return 0; }", "int main() {", "}", "// #endif", "/* #ifdef X", "*/", "\"#endif\""]))
+    text = "\n".join(lines) + ("\n" if r.chance(70) else "")
+    if r.chance(25):
+        text = text[:r.below(len(text) + 1)]
+    return text
 
 
 def progress_ok(trace):
@@ -159,7 +210,7 @@ def main(a):
                 problems.append("parse loop did not consume input between iterations %s -> %s (hypothesis of CbProps.C10.progress_terminates)" % where)
         if not problems:
             return
-        cell = kind.rsplit("-", 1)[0] if kind.startswith(("deep-", "long-")) else kind
+        cell = kind.rsplit("-", 1)[0] if kind.startswith(("deep-", "long-", "wide-", "double-")) else kind
         sig = (cell, problems[0].split(":")[0])
         if os.environ.get("CB_VERIF_CENSUS"):
             census.setdefault(sig, []).append("%s: %s | %s" % (name, "; ".join(problems), (o[2] or "")[-160:].replace("\n", " ")))
@@ -197,6 +248,8 @@ def main(a):
             inputs.append(("mutant-" + how, n, m))
     for k, p in nesting(r):
         inputs.append((k, k, p))
+    for i in range(150 if quick else 6000):
+        inputs.append(("preproc", "pp%d" % i, preproc_case(r)))
     for i in range(40 if quick else 600):
         ln = r.range(1, 600)
         inputs.append(("random-bytes", "rb%d" % i, bytes(r.below(256) for _ in range(ln)).decode("latin-1")))
@@ -207,7 +260,7 @@ def main(a):
     rejected = 0
     iters = 0
     for (kind, name, text), o in zip(inputs, outs):
-        base = kind.rsplit("-", 1)[0] if kind.startswith(("deep-", "long-")) else kind
+        base = kind.rsplit("-", 1)[0] if kind.startswith(("deep-", "long-", "wide-", "double-")) else kind
         dist[base] = dist.get(base, 0) + 1
         nontrivial.add((base, hash(text) % 1000003))
         rejected += 1 if o[1] == "error" else 0
@@ -238,7 +291,10 @@ def main(a):
         "rule": "parse-only runs of the ASan+UBSan build: repository .cb files <= 8 KiB (quick: a sample of 220; thorough: all), "
                 "%d token-level mutants of each (delete, duplicate, swap, truncate at a token boundary, byte flips, structural "
                 "token replacement, token repetition), ~%d synthetic nesting inputs (parens, blocks, unary chains, literals, "
-                "indexes, calls, ternaries, if/else chains, generics, casts, member chains, interpolation, macros) up to 8 KiB, "
+                "indexes, calls, ternaries, if/else chains, generic / pointer / array / const / function-pointer TYPE nesting in "
+                "declarations, parameters, return types and members, casts, member chains, interpolation, macro chains, wide and "
+                "self-referential and doubling macros) up to 8 KiB, random sequences of preprocessor directives with deliberately "
+                "unbalanced conditionals, "
                 "random bytes / ASCII; full execution of generated pointer-free core programs under the sanitizers. Verdict per "
                 "input: exit status 0/1, diagnostic when rejected, no sanitizer report, strictly increasing parse_iter "
                 "positions. non-trivial = distinct input" % (nm, len(nesting(r))),
